@@ -136,13 +136,51 @@ void ob_c18_isclose_dynshape(const A& a, const A& b)
     ASSUME(nm::len(a.shape_) == 2 && nm::len(b.shape_) == 2);
     if (a.shape_[AX] != b.shape_[AX]) OBLIGE("C18.isclose.ndarray.dynamic_shape.false_when_shape_differs", !utils::isclose(a,b), TAG, AX);
 }
-// isclose on scalars: |a-b| < eps
-void ob_c18_isclose_scalar(float a, float b, float eps)
+// isclose on scalars: |a-b| < eps, the difference taken in the common type of operands and tolerance as "larger minus smaller"
+// (LLVM does not relate fabs(a-b) to that form, so the oracle is written the way the mathematical definition is evaluated without a
+// wrap-around for unsigned operands); every pair of operand types, either operand order
+template <class T, class U, class E, long tag>
+void ob_c18_isclose_scalar(T a, U b, E eps)
 {
+    using C = std::common_type_t<T,U,E>;
     ASSUME(a==a && b==b && eps==eps);
-    float d = a - b; float ad = d < 0 ? -d : d;
-    if (ad < eps) OBLIGE("C18.isclose.scalar.true_when_below_eps", utils::isclose(a,b,eps), 0);
-    else          OBLIGE("C18.isclose.scalar.false_when_not_below_eps", !utils::isclose(a,b,eps), 0);
+    C ca = (C)a, cb = (C)b; C ad = ca > cb ? ca - cb : cb - ca;
+    if (ad < (C)eps) OBLIGE("C18.isclose.scalar.true_when_below_eps", utils::isclose(a,b,eps), tag);
+    else             OBLIGE("C18.isclose.scalar.false_when_not_below_eps", !utils::isclose(a,b,eps), tag);
+    // the other operand order: the same magnitude (|x| = |-x|), written as that call evaluates it
+    C da = cb > ca ? cb - ca : ca - cb;
+    if (da < (C)eps) OBLIGE("C18.isclose.scalar.symmetric", utils::isclose(b,a,eps), tag);
+    else             OBLIGE("C18.isclose.scalar.symmetric", !utils::isclose(b,a,eps), tag);
+}
+template void ob_c18_isclose_scalar<float,float,float,1>(float,float,float);
+template void ob_c18_isclose_scalar<double,double,double,2>(double,double,double);
+template void ob_c18_isclose_scalar<float,float,double,3>(float,float,double);
+template void ob_c18_isclose_scalar<int,double,double,4>(int,double,double);
+template void ob_c18_isclose_scalar<double,int,double,5>(double,int,double);
+template void ob_c18_isclose_scalar<int,float,double,6>(int,float,double);
+template void ob_c18_isclose_scalar<long,float,float,7>(long,float,float);
+template void ob_c18_isclose_scalar<int,int,double,8>(int,int,double);
+template void ob_c18_isclose_scalar<unsigned,unsigned,double,9>(unsigned,unsigned,double);
+template void ob_c18_isclose_scalar<unsigned char,int,double,10>(unsigned char,int,double);
+template void ob_c18_isclose_scalar<bool,double,double,11>(bool,double,double);
+// the tolerance reaches the comparison when one operand is wrapped in an either / optional
+void ob_c18_isclose_wrapped(const std::variant<nm::none_t,float>& e, const std::optional<float>& m, float b, double eps)
+{
+    ASSUME(b==b && eps==eps);
+    if (auto p = std::get_if<float>(&e)) {
+        float a = *p; ASSUME(a==a);
+        double ca = a, cb = b; double ad = ca > cb ? ca - cb : cb - ca;
+        double da = cb > ca ? cb - ca : ca - cb;
+        if (ad < eps) OBLIGE("C18.isclose.either_vs_scalar.uses_the_given_tolerance", utils::isclose(e,b,eps), 0); else OBLIGE("C18.isclose.either_vs_scalar.uses_the_given_tolerance", !utils::isclose(e,b,eps), 2);
+        if (da < eps) OBLIGE("C18.isclose.either_vs_scalar.uses_the_given_tolerance", utils::isclose(b,e,eps), 1); else OBLIGE("C18.isclose.either_vs_scalar.uses_the_given_tolerance", !utils::isclose(b,e,eps), 3);
+    }
+    if (m) {
+        float a = *m; ASSUME(a==a);
+        double ca = a, cb = b; double ad = ca > cb ? ca - cb : cb - ca;
+        double da = cb > ca ? cb - ca : ca - cb;
+        if (ad < eps) OBLIGE("C18.isclose.maybe_vs_scalar.uses_the_given_tolerance", utils::isclose(m,b,eps), 0); else OBLIGE("C18.isclose.maybe_vs_scalar.uses_the_given_tolerance", !utils::isclose(m,b,eps), 2);
+        if (da < eps) OBLIGE("C18.isclose.maybe_vs_scalar.uses_the_given_tolerance", utils::isclose(b,m,eps), 1); else OBLIGE("C18.isclose.maybe_vs_scalar.uses_the_given_tolerance", !utils::isclose(b,m,eps), 3);
+    }
 }
 void ob_c18_negctl(const std::array<size_t,2>& a, const std::array<size_t,2>& b)
 {
